@@ -27,6 +27,7 @@
 //   hk <conn> <needsReroute> <falsePath> <routeDist> <staticInvalidated>     (hook only) the state handed to
 //                                         verifRerouteSink at the top of rerouteAndCallbackConnectors
 //   pf <conn> <needsReroute> <falsePath> <routeDist>     (hook only) the same members after the transaction
+//   ct <conn> <1|2> <n> ids…              Router::contains of the source / target vertex
 //   hook <0|1>                            whether the library was built with ADAPTAGRAMS_VERIF_REROUTE_HOOK
 // The generator keeps the *immediate-semantics* scene (what the router holds after the next
 // processTransaction) interior-disjoint with gaps >= 1 and endpoints >= 1 away from every shape:
@@ -176,6 +177,18 @@ void txnPoint(World &w, vh::Rng &rng, bool forceDump) {
         if (!(c.c->src() && c.c->dst())) { all = false; continue; }
         printf("rt %u", c.id); pts(c.c->displayRoute()); printf("\n");
         printf("rr %u", c.id); pts(c.c->route()); printf("\n");
+    }
+    for (const Cn &c : w.cns) {
+        // Router::contains (public): the obstacles whose routing polygon strictly contains an end point
+        VertInf *ends[2] = {c.c->src(), c.c->dst()};
+        for (int e = 0; e < 2; ++e) {
+            if (!ends[e]) continue;
+            ContainsMap::const_iterator it = w.router->contains.find(ends[e]->id);
+            printf("ct %u %d", c.id, e + 1);
+            if (it == w.router->contains.end()) printf(" 0");
+            else { printf(" %zu", it->second.size()); for (unsigned v : it->second) printf(" %u", v); }
+            printf("\n");
+        }
     }
     for (const Cn &c : w.cns) {
         printf("rp %u %d\n", c.id, (int) c.c->needsRepaint());
